@@ -5,7 +5,8 @@
 (* maximum PDU size and storage mode.  The pipeline                        *)
 (*   Encode(ts) -> Fragment(max) -> Wire -> Reassemble(memory | temp file) *)
 (*   -> Access(decoded | raw bytes | file)                                 *)
-(* is modelled on an abstract payload (a sequence of byte positions): each *)
+(* (or refused: nothing delivered, for a stored data set that would need a *)
+(* conversion the sending mode cannot do) is modelled on an abstract payload (a sequence of byte positions): each *)
 (* stage must be the identity on the encoded bytes.  TLC enumerates the    *)
 (* configuration vectors; each is one initial state.                       *)
 (***************************************************************************)
@@ -21,7 +22,11 @@ StoreOps == {"STORE", "STORE_FILE", "GETSUB"}
 
 VARIABLES cfg, stage, payload
 vars == <<cfg, stage, payload>>
-Config == {c \in [op : Ops, ts : TSs, max : MaxPdus, sendChunked : BOOLEAN, recvChunked : BOOLEAN, shape : Shapes] :
+\* dsts: the data set being stored is itself encoded in the context's transfer syntax ("same"), or in another uncompressed
+\* syntax of the same byte order ("other": implicit / explicit / deflated little endian) - the sender then has to convert it,
+\* or, when it streams the stored bytes as they are (chunked send of a file), to refuse: what is delivered is the original
+Config == {c \in [op : Ops, ts : TSs, max : MaxPdus, sendChunked : BOOLEAN, recvChunked : BOOLEAN, shape : Shapes, dsts : {"same", "other"}] :
+             /\ (c.dsts = "other" => c.op \in {"STORE", "STORE_FILE"} /\ c.ts # "bigendian" /\ c.shape \in {"small", "vrmix"} /\ ~c.recvChunked)
              /\ (c.sendChunked => c.op = "STORE_FILE")          \* chunked send applies to send_c_store(path)
              /\ (c.recvChunked => c.op \in StoreOps)             \* chunked receive applies to C-STORE requests
              /\ (c.op = "STORE_FILE" => c.ts # "deflated" \/ TRUE)}
